@@ -186,16 +186,8 @@ def _neighbours(ddl, ctor, run_kw, keep):
 
 
 def classify_shadow(f):
-    """known-finding key for a shadow difference, by input feature and shape of the deviation (see known_findings.json), else None"""
-    import re as _re
-    if f["path"].startswith("a statement without its terminator in front"):
-        lines = [l for l in f["ddl"].replace("\r", "").split("\n") if l.strip()]
-        feature = any(_re.match(r"\s*(CREATE|ALTER|DROP)\s", a, _re.I) and a.rstrip().endswith(";") and not _re.match(r"\s*(CREATE|ALTER|DROP|SET)\s+\S", b, _re.I)
-                      for a, b in zip(lines, lines[1:]))
-        obs, exp = f["observed"], f["first_call"]
-        lost_table = obs[0] == "exc" and obs[1] == "ValueError" and "does not exists in tables data" in obs[2]      # the lost statement was the CREATE TABLE a later ALTER names
-        if feature and (lost_table or (obs[0] == "ok" and isinstance(obs[1], list) and isinstance(exp, list) and len(entities(obs[1])) <= len(entities(exp)))):
-            return "C03:pending-one-liner-glued-to-next-line"
+    """known-finding key for a shadow difference, by input feature and shape of the deviation (known_findings.json), else None.
+    No open finding is reported through the shadow paths at present (the one there was, F23, is repaired)."""
     return None
 
 
